@@ -117,7 +117,9 @@ var sentinel int64 = 1000
 func wrap(w string, body string, level int) string {
 	fn := fmt.Sprintf("w%d", level)
 	sent := fmt.Sprintf("\np(%d)", sentinel+int64(level))
-	def := func(params string) string { return "func " + fn + "(" + params + ") {\n" + indent(body) + sent + "\n return 1\n}\n" }
+	def := func(params string) string {
+		return "func " + fn + "(" + params + ") {\n" + indent(body) + sent + "\n return 1\n}\n"
+	}
 	switch w {
 	case "fn0":
 		return def("") + fn + "()" + sent
